@@ -50,6 +50,11 @@ def verdictRejected (m : Mon) (auth : List Nat) (op : Op) (o : Obs) : Option Str
   else if o.pend ≠ m.pend then some "site=rt.rollback a rejected call changed what accept would do"
   else match op with
     | .guarded => if holderIn m.holder auth then some "site=rt.guarded.lost-control the holder authorized but was refused" else none
+    | .offer new lu =>
+      -- until acceptance the holder keeps full control: it can always withdraw the offer that is open
+      if lu = 0 ∧ holderIn m.holder auth = true ∧ m.pend = some new then
+        some s!"site=rt.cancel.lost-control the holder authorized the cancellation of the open offer to {new} but was refused: the invited account can still accept"
+      else none
     | _ => none
 
 def verdictAccept (m : Mon) (auth : List Nat) (o : Obs) : Option String :=
